@@ -24,16 +24,16 @@ def c3(ctx):
     serial.table_spec(ctx)
     serial.writer_item_loop(ctx, serial.SSCCHART_SERIALIZE, notes_exempt=True)
     serial.writer_item_loop(ctx, serial.BASE_SERIALIZE, notes_exempt=False)
-    serial.reader_multi(ctx)
+    serial.reader_multi(ctx, 'ssc')
 
 
 def c4(ctx):
-    serial.ssc_chart_opening(ctx)
+    serial.ssc_chart_opening(ctx, relaxed=True)
 
 
 def c5(ctx):
-    serial.null_sweep(ctx)
-    serial.serializer_raw_text(ctx)
+    serial.null_sweep(ctx, 'ssc')
+    serial.serializer_raw_text(ctx, 'ssc')
     serial.layout(ctx)
 
 
